@@ -942,6 +942,26 @@ def run(ctx):
         else:
             ctx.fail("C13-R3", g.path, "conversion", "lsp2mgc returns %s" % show(ret)[:160], g.loc())
 
+    # the polynomial lsp2lpc hands over is already on the voice's warped axis: it is tagged with the
+    # voice's own alpha and gamma, so that mgc2mgc(len - 1, self.alpha, self.gamma) converts the gamma
+    # only and applies no second frequency transform (seed C13j tagged it with alpha 0)
+    lb_ = p.body(LSP + "lsp2lpc")
+    if lb_ is not None:
+        leb = ExprBuilder(lb_)
+        tags = []
+        for bb_, i_, st_ in lb_.iter_stmts():
+            if st_["k"] == "assign" and st_["rv"]["k"] == "aggregate" and str(st_["rv"]["kind"].get("def", "")).endswith("MelGeneralizedCepstrum"):
+                e_ = leb.at(bb_, i_).rvalue(st_["rv"])
+                if e_[0] == "agg" and e_[3]:
+                    tags.append((dict(zip(e_[3], e_[2])), cm.loc_of(st_["span"])))
+        ctx.anchor("C13-R3", "MelGeneralizedCepstrum literals in lsp2lpc", len(tags), 1, lb_.loc())
+        for vals_, loc_ in tags:
+            a_, g_ = vals_.get("alpha"), vals_.get("gamma")
+            if a_ is not None and g_ is not None and show(a_) == "self.alpha" and show(g_) == "self.gamma":
+                ctx.ok("C13-R3", "lsp2lpc tags its polynomial with the voice's own alpha and gamma (mgc2mgc then applies no second warp)", loc_)
+            else:
+                ctx.fail("C13-R3", lb_.path, "alpha / gamma tag", "lsp2lpc tags its polynomial with alpha = %s, gamma = %s instead of self.alpha / self.gamma: mgc2mgc(len - 1, self.alpha, self.gamma) then warps (or gamma-converts) coefficients that already are on the voice's axis" % (show(a_) if a_ is not None else None, show(g_) if g_ is not None else None), loc_)
+
     # ---- R4
     sn = cm.body_or_fail(ctx, p, "C13-R4", "vocoder::stage::Stage::new")
     if sn is not None:
